@@ -1,7 +1,7 @@
 (* C04 — no transaction sequence halts the chain; updates are always valid for CometBFT. *)
 From stdpp Require Import gmap.
 Require Import Model.Base Model.State Model.Staking Model.Slashing Model.Poa Model.App.
-Require Import proofs.Inv proofs.InvPres proofs.InvMsgs proofs.InvHistory proofs.InvComet proofs.InvQueue proofs.InvPools proofs.InvElig proofs.InvLive proofs.L1More.
+Require Import proofs.Inv proofs.InvPres proofs.InvMsgs proofs.InvHistory proofs.InvComet proofs.InvQueue proofs.InvPools proofs.InvElig proofs.InvLive proofs.InvBegin proofs.L1More.
 
 (* after every block of every history from every (non-negative) genesis — any number of blocks, any in-block
    order of any messages of the modelled alphabet, any downtime pattern, any time steps — the chain invariant
@@ -58,6 +58,24 @@ Theorem C04_transactions_cannot_empty_the_set : forall g bs,
   wf_genesis g -> 1 <= g_max_vals g -> env_ok (init_world g) bs ->
   w_halted (run_world (init_world g) bs) <> Some (HComet 4).
 Proof. exact history_never_emptied. Qed.
+
+(* BeginBlock returns no error either: the validators whose votes a block carries (the set of two blocks earlier) still
+   have a record that is Bonded or Unbonding and a signing info, so x/distribution finds every voter and x/slashing can
+   look up, slash and jail — provided each block interval is shorter than the smallest unbonding time (m seconds) the
+   admin ever sets (H-time; with a shorter one a removed validator's record is deleted before its last votes are counted) *)
+Theorem C04_beginblock_never_fails : forall m g bs e,
+  wf_genesis g -> 1 <= m -> m <= g_unbond_secs g -> 0 <= g_slash_down_bp g -> Forall (ut_block m) bs ->
+  w_halted (run_world (init_world g) bs) <> Some (HBeginBlock e).
+Proof. exact history_begin_never_halts. Qed.
+
+(* altogether: under the environment's hypotheses (H-time, H-alive, unsigned max_validators fields, a sane genesis) no
+   sequence of blocks of transactions makes block execution return an error or CometBFT refuse the updates, except
+   possibly for CometBFT's bound on the total voting power (code 5), which is not excluded here *)
+Theorem C04_no_history_halts : forall m g bs,
+  wf_genesis g -> 1 <= g_max_vals g -> 1 <= m -> m <= g_unbond_secs g -> 0 <= g_slash_down_bp g ->
+  Forall (ut_block m) bs -> env_ok (init_world g) bs ->
+  w_halted (run_world (init_world g) bs) = None \/ w_halted (run_world (init_world g) bs) = Some (HComet 5).
+Proof. exact history_never_halts. Qed.
 
 (* the EndBlocker's own contract, for any store satisfying the invariant and index sets of any size *)
 Theorem C04_endblocker_contract : forall c,
